@@ -188,3 +188,39 @@ def union_star(I, base_set, sl):
     """base.union(*sets) with sets an SList of SSet."""
     U = gmode.bigunion(I, sl.length, lambda t: sl.elem(t).term, f"union({sl.tag})")
     return SSet(sym.union(base_set.term, U))
+
+
+def concat_star(I, extra):
+    """Positional arguments of which one is *slist -> the *args tuple as an SList."""
+    if len(extra) == 1:
+        return extra[0].slist
+    _unsupported("a symbolic-length list mixed with other positional arguments")
+
+
+def b_zip(I, lists):
+    if len(lists) != 2 or not all(isinstance(x, SList) for x in lists):
+        _unsupported("zip of symbolic-length lists with other iterables")
+    a, b = lists
+    n = z3.simplify(z3.If(a.length <= b.length, a.length, b.length))
+    return SList(n, lambda t: (a.elem(t), b.elem(t)), f"zip({a.tag},{b.tag})")
+
+
+def b_any(I, sl):
+    """any(...) over a symbolic-length list of booleans: not (forall i. not elem(i))."""
+    def neg(t):
+        e = sl.elem(t)
+        if isinstance(e, bool):
+            return z3.BoolVal(not e)
+        return z3.Not(e)
+    return z3.Not(gmode.forall_const(I, sl.length, neg, f"none({sl.tag})"))
+
+
+def b_all(I, sl):
+    def pos(t):
+        e = sl.elem(t)
+        return z3.BoolVal(e) if isinstance(e, bool) else e
+    return gmode.forall_const(I, sl.length, pos, f"all({sl.tag})")
+
+
+def join(I, sep, sl):
+    return SStr([("joined", sep, sl)])
